@@ -96,3 +96,13 @@ Definition decode (data : list Z) : Res decoded := decode_gen rfc_quirks data.
 Definition decode_go (data : list Z) : Res decoded := decode_gen go_quirks data.
 Definition decode_unfiltered (data : list Z) : Res (Z * Z * planes) :=
   r <- decode data ;; Ok (dc_w r, dc_h r, dc_unfiltered r).
+
+(** Stable entry point for other properties (C02 conformance runner): the planes after
+    the loop filter, cropped to the visible size, each as one flat list in raster
+    order (Y: w*h samples; U, V: ((w+1)/2)*((h+1)/2) samples).  A stream that can only
+    be decoded by reading bits beyond the end of a partition is an error (E_TRUNC). *)
+Definition decode_yuv (data : list Z) : Res (Z * Z * list Z * list Z * list Z) :=
+  r <- decode data ;;
+  if dc_past_end r then Err E_TRUNC else
+  let p := dc_filtered r in
+  Ok (dc_w r, dc_h r, concat (pl_y p), concat (pl_u p), concat (pl_v p)).
